@@ -328,7 +328,8 @@ def main(tier, seed):
         if len(chk.samples) < 3 and r["class"] == "normal" and st.count("ok") == 4:
             chk.sample({"cells": dict(zip(["%s/%s" % k for k in itertools.product(MUTS, SAMPLES)], st)), "row_orders_loaded": r["loads"]})
     litems = []
-    for n_mut, smp in ((9, ["S2", "S1"]), (10, ["S2", "S1"]), (6, ["S2", "S10", "S1"]), (12, ["S2", "S10", "S1"]), (5, ["B", "A", "D", "C"]), (40, ["S2", "S1"])):
+    for n_mut, smp in ((9, ["S2", "S1"]), (10, ["S2", "S1"]), (6, ["S2", "S10", "S1"]), (12, ["S2", "S10", "S1"]), (5, ["B", "A", "D", "C"]), (40, ["S2", "S1"]),
+                          (4, ["S%d" % i for i in range(1, 13)]), (3, [str(i) for i in (1, 2, 10, 100, 11, 3, 20, 4, 5, 6, 7)])):
         for sep in ("\t", ","):
             litems.append((n_mut, smp, sep, 100 + seed))
     for r in pool_imap(large_case, litems, chunksize=1):
